@@ -2,6 +2,8 @@ import SC.Proofs.Valid
 import SC.Proofs.FoldFacts
 import SC.Proofs.StdClass
 import SC.Proofs.StdEqualFold
+import SC.Proofs.StdClass2
+import SC.Proofs.Utf8Order
 import SC.Proofs.RIndexAny6
 import SC.Proofs.RSuffix
 import SC.Proofs.RTrim
@@ -180,6 +182,49 @@ theorem model_agrees (φ : Bytes → Bytes) (cfg : A.Cfg) (s t : Bytes) (hs : St
   exact ⟨Std.cls_index hs ht, Std.cls_lastIndex hs ht, Std.cls_contains hs ht, Std.cls_hasPrefix hs ht, hsuf.1,
     (Std.cls_trimPrefix hs ht).1, (Std.cls_trimPrefix hs ht).2, hsuf.2.1, hsuf.2.2, by rw [Std.cls_count hs ht],
     by rw [Std.cls_cut hs ht], hany.1, hany.2.1, hany.2.2⟩
+
+/-- caseless class, Compare: UTF-8 preserves code point order, so `strings.Compare` on the bytes is the comparison of
+    the (unfolded = folded) code point sequences -/
+theorem caseless_compare (s t : Bytes) (hs : Caseless s) (ht : Caseless t) : S.compare s t = Std.compare s t := by
+  unfold S.compare Std.compare
+  rw [fruns_caseless s hs, fruns_caseless t ht]
+  exact lexCmp_valid s t hs.1 ht.1
+
+/-- caseless class, IndexRune / ContainsRune (any `int32`; a valid `r` must itself be caseless) -/
+theorem caseless_indexRune (s : Bytes) (hs : Caseless s) (r : Int)
+    (hr : S.validRuneI r = true → caseFold r.toNat = r.toNat) :
+    S.indexRune s r = Std.indexRune s r ∧ S.containsRune s r = Std.containsRune s r := by
+  have h := Std.cls_indexRune (cls_caseless s hs) r r rfl hr
+  exact ⟨h, by unfold S.containsRune Std.containsRune; rw [h]; rfl⟩
+
+/-- ASCII class, IndexRune / ContainsRune: the namesake on `ToLower(s)`, `unicode.ToLower(r)` -/
+theorem ascii_indexRune (s : Bytes) (hs : IsASCII s) (r : Nat) (hr : r < 0x80) :
+    S.indexRune s (r : Int) = Std.indexRune (toLower s) ((lower (UInt8.ofNat r)).toNat : Int) := by
+  have hb : UInt8.ofNat r < 0x80 := by
+    rw [UInt8.lt_iff_toNat_lt, ofNat_toNat_lt r (by omega)]; exact hr
+  have hl := lower_lt _ hb
+  have hln : (lower (UInt8.ofNat r)).toNat < 128 := by have := UInt8.lt_iff_toNat_lt.mp hl; simpa using this
+  apply Std.cls_indexRune (cls_ascii s hs)
+  · have v1 : S.validRuneI (r : Int) = true := by
+      simp only [S.validRuneI, decide_eq_true_eq, Int.toNat_natCast]
+      exact ⟨Int.natCast_nonneg _, Or.inl (by omega)⟩
+    have v2 : S.validRuneI ((lower (UInt8.ofNat r)).toNat : Int) = true := by
+      simp only [S.validRuneI, decide_eq_true_eq, Int.toNat_natCast]
+      exact ⟨Int.natCast_nonneg _, Or.inl (by omega)⟩
+    rw [v1, v2]
+  · intro _
+    simp only [Int.toNat_natCast]
+    have := caseFold_lower (UInt8.ofNat r) hb
+    rwa [ofNat_toNat_lt r (by omega)] at this
+
+/-- byte searches: a non-letter byte (caseless class; any haystack) and the ASCII class -/
+theorem indexByte_agrees (s : Bytes) (c : UInt8) :
+    (S.isAlpha c = false → S.indexByte s c = Std.indexByte s c ∧ S.indexByteASCII s c = Std.indexByte s c ∧
+        S.lastIndexByte s c = Std.lastIndexByte s c) ∧
+    (IsASCII s → c < 0x80 → S.indexByte s c = Std.indexByte (toLower s) (lower c) ∧
+        S.indexByteASCII s c = Std.indexByte (toLower s) (lower c) ∧
+        S.lastIndexByte s c = Std.lastIndexByte (toLower s) (lower c)) :=
+  ⟨Std.indexByte_plain s c, Std.indexByte_ascii s c⟩
 
 /-- EqualFold needs no class: it equals `strings.EqualFold` on every pair of byte strings (C02) -/
 theorem equalFold_agrees (s t : Bytes) : Std.equalFoldS s t = some (S.equalFold s t) := Std.equalFoldS_eq s t
